@@ -62,6 +62,7 @@ fn main() {
         log::set_max_level(log::LevelFilter::Trace);
     }
     engine::install_panic_hook();
+    engine::start_watchdog();
     let code = match (prop.as_str(), &replay) {
         ("CORPUS", _) => {
             // seed corpora for the libFuzzer targets, written under /verif/target/fuzz-corpus
